@@ -920,3 +920,149 @@ def real_unioncfg(config, doc="plain"):
         U.NodeParser = orig
     uniq = [list(x) for x in dict.fromkeys(tuple(x) for x in seen)]
     return {"ok": {"replay": uniq, "after": [getattr(cfg, k) for k in FLAGS]}}
+
+
+# --------------------------------------------------------------------------
+# which node binds which element, decided from the class DESCRIPTION alone (no xsdata code):
+# the oracles judge with these labels; `label_elements` (real parser) only spreads the samples
+# --------------------------------------------------------------------------
+XS = "http://www.w3.org/2001/XMLSchema"
+
+
+def _by_name(desc):
+    return {c["name"]: c for c in desc["classes"]}
+
+
+def _is_sub(desc, c, base):
+    if c == base:
+        return True
+    return any(_is_sub(desc, b, base) for b in _by_name(desc)[c].get("bases", []))
+
+
+def _qn(ns, local):
+    return "{%s}%s" % (ns, local) if ns else local
+
+
+def _default_type(fields):
+    undefined = sum(1 for f in fields if not f.get("metadata", {}).get("type"))
+    texts = sum(1 for f in fields if f.get("metadata", {}).get("type") == "Text")
+    return "Text" if undefined == 1 and texts == 0 else "Element"
+
+
+def _local(q):
+    return q.split("}")[-1]
+
+
+def desc_labels(desc, clazz, tree, union_classes=None, root_ns=None):
+    """labels as `label_elements` gives them, computed from the description; an element the
+    description does not settle (xsi:type that does not name a known subclass, anyType content that
+    may be a known root element, ...) gets no label, i.e. no claim.  Returns (labels, inside-union paths)"""
+    by = _by_name(desc)
+    labels, inside, todo = {}, set(), list(union_classes or [])
+    roots = {(c.get("meta") or {}).get("name", c["name"]) for c in desc["classes"]}
+
+    def mark(path, node, lab):
+        labels[path] = lab
+        for i, c in enumerate(node["c"]):
+            mark(path + (i,), c, lab)
+
+    def xsi_type(node):
+        for k, v in node["a"]:
+            if k == "{%s}type" % XSI:
+                return v
+        return None
+
+    def resolve_class(node, declared):
+        """class that binds an element declared with class type `declared`; None = not settled"""
+        xt = xsi_type(node)
+        if not xt:
+            return declared
+        pfx, _, local = xt.rpartition(":")
+        uri = dict((p, u) for p, u in node["ns"]).get(pfx or None)
+        if uri == XS:
+            return None
+        hits = [c["name"] for c in desc["classes"] if (c.get("meta") or {}).get("name", c["name"]) == local and _is_sub(desc, c["name"], declared)]
+        return hits[0] if len(hits) == 1 else None
+
+    def element(path, node, cname, pns, in_union):
+        labels[path] = ("element", cname)
+        if in_union:
+            inside.add(path)
+        own = (by[cname].get("meta") or {}).get("namespace")
+        ns = own if own is not None else pns
+        fields = desc_fields(desc, cname)
+        for i, c in enumerate(node["c"]):
+            child(path + (i,), c, cname, ns, fields, None, in_union)
+
+    def child(path, node, cname, ns, fields, wrapper, in_union):
+        if in_union:
+            inside.add(path)
+        q = node["q"]
+        dflt = _default_type(fields)
+        if wrapper is None:
+            for f in fields:
+                w = f.get("metadata", {}).get("wrapper")
+                if w and _qn(f["metadata"].get("namespace", ns) or None, w) == q:
+                    labels[path] = ("wrapper", cname)
+                    for j, g in enumerate(node["c"]):
+                        child(path + (j,), g, cname, ns, fields, q, in_union)
+                    return
+        for f in fields:
+            md = f.get("metadata", {})
+            typ = md.get("type") or dflt
+            if typ == "Element":
+                fns = md.get("namespace", ns) or None
+                if _qn(fns, md.get("name", f["name"])) != q:
+                    continue
+                if wrapper is not None and _qn(fns, md.get("wrapper", "")) != wrapper:
+                    continue
+                if wrapper is None and md.get("wrapper"):
+                    continue
+                return bind(path, node, cname, ns, f, f["type"], in_union)
+            if typ == "Elements":
+                for ch in md.get("choices", []):
+                    if _qn(ch.get("namespace", ns) or None, ch["name"]) == q:
+                        ct = {"list": ch["type"]} if isinstance(f["type"], dict) and ("list" in f["type"] or "tuple" in f["type"]) else ch["type"]
+                        return bind(path, node, cname, ns, {**f, "metadata": {k: v for k, v in ch.items() if k != "type"}}, ct, in_union)
+        for f in fields:
+            md = f.get("metadata", {})
+            if md.get("type") == "Wildcard":
+                if _local(q) in roots or md.get("namespace", "##any") != "##any":
+                    return  # may be bound as a known root element / may fall outside the namespace constraint: not settled here
+                return mark(path, node, ("wildcard",))
+        return mark(path, node, ("skip",))
+
+    def bind(path, node, cname, ns, f, t, in_union):
+        md = f.get("metadata", {})
+        bt = _strip_type(t)
+        is_list = isinstance(t, dict) and ("list" in t or "tuple" in t)
+        if isinstance(bt, dict) and "union" in bt:
+            if in_union or not todo:
+                return
+            c = todo.pop(0)
+            return element(path, node, c, _target(node["q"]), True)
+        if isinstance(bt, dict) and "cls" in bt:
+            c = resolve_class(node, bt["cls"])
+            if c is not None:
+                element(path, node, c, ns, in_union)
+            return
+        if bt == "object":
+            xt = xsi_type(node)
+            if xt:
+                pfx, _, local = xt.rpartition(":")
+                uri = dict((p, u) for p, u in node["ns"]).get(pfx or None)
+                if uri == XS:
+                    labels[path] = ("standard",)
+                return
+            if _local(node["q"]) in roots:
+                return
+            return mark(path, node, ("wildcard",))
+        labels[path] = ("primitive", f["name"], [bt], is_list and not md.get("tokens"), bool(md.get("tokens")), f.get("init") is not False, cname)
+        for i, c in enumerate(node["c"]):
+            mark(path + (i,), c, None)
+
+    def _target(q):
+        return q[1:].split("}")[0] if q.startswith("{") else None
+
+    element((), tree, clazz, root_ns, False)
+    return {p: l for p, l in labels.items() if l is not None}, inside
